@@ -90,6 +90,7 @@ func cmdPartRun(args []string) int {
 			var borders [][]byte // current generated inner borders (internal keys)
 			shuffle := false
 			opt := seqOptions{streams: false, finalFrac: 0.02}
+			realRegions := en == "tikv-regions" // the adapter's own answer, from regions split at the generated borders
 			opt.partitions = func(start, end []byte) []storage.Partition {
 				var bs [][]byte
 				for _, x := range borders {
@@ -112,6 +113,9 @@ func cmdPartRun(args []string) int {
 					rnd.Shuffle(len(ps), func(i, j int) { ps[i], ps[j] = ps[j], ps[i] })
 				}
 				return ps
+			}
+			if realRegions {
+				opt.partitions = nil
 			}
 			opt.afterOp = func(env *kb.Env, i int, o seqOp, rd *reader) {
 				if i != len(b.Ops)-1 {
@@ -144,7 +148,12 @@ func cmdPartRun(args []string) int {
 						_, num, r, _ := env.Keys.DecodeInternal(x)
 						desc = append(desc, []interface{}{num, gate.Clip(r)})
 					}
-					env.Rec.Log(gate.Event{"e": "Note", "what": "borders", "borders": desc, "shuffled": shuffle})
+					if realRegions {
+						for _, x := range borders {
+							engs[en].SplitAt(x)
+						}
+					}
+					env.Rec.Log(gate.Event{"e": "Note", "what": "borders", "borders": desc, "shuffled": shuffle, "real_regions": realRegions})
 					rd.list(lo, hi, rev, 0, -1)
 					rd.count(lo, hi)
 					rd.pstream(lo, hi, rev)
